@@ -1086,6 +1086,89 @@ fn hardening4(rng: &mut Rng, thorough: bool, emit: &mut dyn FnMut(String)) {
     }
 }
 
+/// BLOCK BOUNDARIES (sixth seeded round, category O): a blocked / unrolled matrix-vector product, maximum search, Rayleigh
+/// quotient or normalisation changes behaviour exactly when the order passes 16, 32, 64 (128 in the thorough tier).  The
+/// orders 15..18 and 31..34 are part of "every n = 9..40" above; here once more and 63..66 (thorough: 127..130), with
+/// non-constant data: symmetric Q D Q^T (`accbig`: residual + exact inertia counts) and NON-symmetric exact S D S^-1 whose
+/// dominant pair is known exactly (`nsymbig`: residual clause in exact rationals; the correspondence K is the judge of the
+/// eigenvalue at these orders), and the transposed S D S^-1 (a product that walks the matrix the other way round).
+fn block_boundaries(rng: &mut Rng, thorough: bool, emit: &mut dyn FnMut(String)) {
+    for &blk in &[16usize, 32, 64, 128] {
+        for n in [blk - 1, blk, blk + 1, blk + 2, 2 * blk + 1] {
+            if n > 130 || (n > 66 && !thorough) {
+                continue;
+            }
+            if n > 40 {
+                let a = accuracy_case(rng, n);
+                let es = tolerance(rng);
+                emit_req(emit, "accbig", n, n, &a, es);
+            }
+            let (a, floor) = nsym_case(rng, n);
+            let es = tolerance_above(rng, floor);
+            emit_req(emit, "nsymbig", n, n, &a, es);
+        }
+    }
+}
+
+/// RESONANT / EXACT-RELATION PARAMETERS (sixth seeded round, category P): the tolerance EXACTLY equal to the relative
+/// change `ea` of some pass of the documented method (the stopping rule is `ea < es`: it must not stop there), one ulp
+/// above (it must) and one ulp below, and 2^-40 relative to either side; integer matrices with constant row sums (the
+/// all-ones start vector is exactly an eigenvector: `ea` is exactly 0 from the second pass on, every normaliser exactly
+/// the eigenvalue) with dominant and non-dominant row sum, both signs; diagonal and permutation-similar matrices whose
+/// iterates have exact zeros.  `rq_prefix` is used to FIND the tolerance only.
+fn resonant(rng: &mut Rng, thorough: bool, emit: &mut dyn FnMut(String)) {
+    let reps = if thorough { 20 } else { 1 };
+    for k in 0..40 * reps {
+        let n = 2 + k % 7;
+        let (l1, gap) = (exact_scale(rng), rng.uniform(0.2, 0.49));
+        let a = accuracy_case_with(rng, n, Some((l1, gap)));
+        let half = "acc";
+        let r = rq_prefix(&a, n, 40);
+        let lo = 1.001e-12;
+        let mut found = None;
+        for p in 1..r.len() {
+            let ea = ((r[p] - r[p - 1]) / r[p]).abs();
+            if ea.is_finite() && ea > lo && ea < 0.999e-4 && (found.is_none() || rng.chance(1, 3)) {
+                found = Some(ea);
+            }
+        }
+        let Some(ea) = found else { continue };
+        let up = f64::from_bits(ea.to_bits() + 1);
+        let down = f64::from_bits(ea.to_bits() - 1);
+        for es in [ea, up, down, ea * (1.0 + 2f64.powi(-40)), ea * (1.0 - 2f64.powi(-40))] {
+            emit_req(emit, half, n, n, &a, es);
+        }
+    }
+    // constant row sums: A 1 = s 1 exactly (small integers, exact in binary64)
+    for k in 0..40 * reps {
+        let n = 2 + k % 7;
+        let sym = k % 2 == 0;
+        let mut a = vec![0.0; n * n];
+        for i in 0..n {
+            for j in 0..n {
+                if i != j && (!sym || j < i) {
+                    let x = rng.range(-2, 2) as f64;
+                    a[i * n + j] = x;
+                    if sym {
+                        a[j * n + i] = x;
+                    }
+                }
+            }
+        }
+        let s = *rng.pick(&[16.0, -16.0, 32.0, -24.0, 1.0, 0.0, -1.0, 64.0]);
+        for i in 0..n {
+            let off: f64 = (0..n).filter(|&j| j != i).map(|j| a[i * n + j]).sum();
+            a[i * n + i] = s - off;
+        }
+        let sc = if k % 4 == 3 { exact_scale(rng) } else { 1.0 };
+        for x in a.iter_mut() {
+            *x *= sc;
+        }
+        let es = if k % 5 == 4 { 0.0 } else { tolerance(rng) };
+        emit_req(emit, if es == 0.0 { "term" } else if sym { "sym" } else { "gen" }, n, n, &a, es);
+    }
+}
+
 /// The requests that run into the iteration cap cost a thousand times more than the others and come in runs
 /// (termination half, integer matrices with complex or +-lambda pairs); `check` splits the batch into contiguous
 /// slices, one per core, so the requests are emitted in a strided order that gives every slice the same mix.
@@ -1110,6 +1193,11 @@ fn generate_in_order(seed: u64, thorough: bool, emit: &mut dyn FnMut(String)) {
     {
         let mut r4 = Rng::new(seed ^ 0xC13_0004);
         hardening4(&mut r4, thorough, emit);
+    }
+    {
+        let mut r6 = Rng::new(seed ^ 0xC13_0006);
+        block_boundaries(&mut r6, thorough, emit);
+        resonant(&mut r6, thorough, emit);
     }
     let mut rng = Rng::new(seed ^ 0xC13);
     // shape half: every non-square or empty shape in 0..4 x 0..4 and a few larger ones
